@@ -7,7 +7,7 @@ export CARGO_NET_OFFLINE=true CARGO_TERM_COLOR=never
 case "$1" in
   rel)  cargo build --offline --release --target-dir /verif/target/rel ;;
   dbg)  cargo build --offline --target-dir /verif/target/dbg ;;
-  asan) RUSTFLAGS="-Zsanitizer=address -Cforce-frame-pointers=yes" cargo +nightly build --offline --release \
+  asan) RUSTFLAGS="-Zsanitizer=address -Cforce-frame-pointers=yes -Cllvm-args=-asan-use-after-scope=0" cargo +nightly build --offline --release \
           --target x86_64-unknown-linux-gnu --target-dir /verif/target/asan ;;
   tsan) RUSTFLAGS="-Zsanitizer=thread -Cforce-frame-pointers=yes" cargo +nightly build --offline --release \
           -Zbuild-std --target x86_64-unknown-linux-gnu --target-dir /verif/target/tsan ;;
